@@ -168,6 +168,32 @@ def run(ck, w):
         ck.ok(o)
     else:
         ck.fail(o, dn.name, "unchanged entries returned without include_unchanged", "Some(..) reachable when the change is unchanged and include_unchanged is false")
+    o = ck.ob("C18.4c", "Diff::next drops a merged entry only on the verdict of its EntryChange: every entry taken from the merge is converted by "
+                        "to_entry_change, and the next one is taken only behind is_unchanged()==true (no second, narrower notion of 'unchanged')")
+    mnx_ = events_of(lib, dn, "merge::MergeTrees::next")
+    tec_ = [e for e in dn.events if e.bb in dn.live and re.search(r"merge::MatchedEntries::<.*>::to_entry_change$", e.name)]
+    some_e_ = set()
+    for e in mnx_:
+        some_e_ |= flow.success_edges(dn, e, "some")[0]
+    if not mnx_ or not tec_ or not some_e_ or not iu:
+        ck.fail(o, dn.name, "anchor-missing", "merge.next=%d to_entry_change=%d is_unchanged=%d" % (len(mnx_), len(tec_), len(iu)))
+    else:
+        heads_ = {e.bb for e in mnx_}
+        problems_ = []
+        for (u_, v_) in sorted(some_e_):
+            if heads_ & dn.reachable(v_, removed_nodes={e.bb for e in tec_}):
+                problems_.append("an entry can be dropped before it is converted by to_entry_change")
+        un_true = set()
+        for e in iu:
+            un_true |= rules.bool_switch_edges(dn, e, True)
+        for e in tec_:
+            if e.target is not None and heads_ & dn.reachable(e.target, removed_edges=un_true):
+                problems_.append("an entry can be dropped although is_unchanged() was not true")
+        if problems_:
+            for m_ in sorted(set(problems_)):
+                ck.fail(o, dn.name, m_, m_)
+        else:
+            ck.ok(o)
     iub = lib.bodies.get("change::Change::<E>::is_unchanged")
     o = ck.ob("C18.4b", "Change::is_unchanged is true exactly for the Unchanged variant")
     adt = lib.adts.get("change::Change")
